@@ -89,9 +89,9 @@ CLAIMS.update({
     technique="Coq proof (refinement by representation invariant) + differential op-sequence correspondence on mirrored source + scheduled exploration with oracle",
     ref="DESIGN.md §5 C12"),
  "C15": dict(
-    text="Coq theorems for any written sequence, any number of readers and any schedule under sequential consistency: a successful read returns exactly a value the cell has held (c15_sc_not_torn), per reader the returned values follow the write order (c15_sc_monotone), via an inductive invariant over program counters (c15_invariant). Tie: the verbatim sync_cell.rs under the deterministic scheduler; the extracted model is run on the decisions actually taken and must return the same values per reader; the Ordering argument of every atomic operation is compared with the expected sequence; T1 checks the shape of TearableAtomicTime in the source.",
-    note=DNOTE + "PARTIAL: sequential consistency only - the C11 weak-memory part of the property (what the Release/Acquire fences are for) is NOT proved (WMem.v not built); an ordering-only change is reported as a broken correspondence with no-failing-input-found.",
-    technique="Coq proof (inductive invariant over interleavings, SC) + exact schedule-replay correspondence on mirrored source",
+    text="Coq theorems under a release/acquire + relaxed + fences memory model (view-based operational semantics, Model/WMem.v), for the two programs GENERATED on every run from util/sync_cell.rs and time/monotonic_time.rs (translator T2, gen/SyncCellProg.v): for any initial value, any sequence of writes, any number of readers, any schedule and any choice of the (possibly stale) message each load reads, every result of try_read is exactly a value the cell has held (c15_wm_not_torn), results of one reader follow the write order and are never older than what the reader's view already contained (c15_wm_monotone), by an inductive invariant over message views and program counters (c15_wm_invariant); the obligation 'generated program = proved program' (c15_wm_source_is_proved_program) breaks when the atomic operations, their order or their orderings change, and the check then searches the weak-memory machine on the generated programs for a torn/backward read and reports that execution as the replay. The same statements are also proved under sequential consistency (c15_sc_*) for the model that is run against the verbatim sync_cell.rs schedule by schedule under the deterministic scheduler (same values per reader); the orderings the compiled code executes are compared with the generated programs.",
+    note=DNOTE + "Trusted: that the view machine (ORC11-style, no load buffering, no same-thread release sequences, append-only modification order for single-writer locations, no SeqCst) captures the Rust memory model on the targets; translator T2; sequence-number wrap-around excluded; Scheduler/Context glue around SyncCellReader::read (a retry loop, checked syntactically) not modelled beyond that.",
+    technique="Coq proof (inductive invariant over a weak-memory view machine, programs generated from the source) + SC schedule-replay correspondence on mirrored source + bounded weak-memory search for the replay when the obligation breaks",
     ref="DESIGN.md §5 C15, §4.6"),
 })
 
